@@ -288,5 +288,195 @@ def run(chk):
         return True, "", [sw[0].loc, ew[0].loc]
     chk.ob("C11.R3:listing-filter", "only entries matching both the configured prefix and extension enter the listing (necessary part of staying inside the set)", membership)
 
+
+    # ---- R6: the set's directory is usable ---------------------------------------------------------------------------
+    def r6():
+        b = P.body("emit_file::dir_prefix_ext")
+        par = [c for c in b.calls(normal_only=True) if (c.callee.get("path") or "") == "std::path::Path::parent"]
+        if not par:
+            raise mir.AnchorMissing("Path::parent in dir_prefix_ext")
+        checked = 0
+        for rb in b.return_blocks():
+            for path in b.acyclic_paths(0, rb, limit=4000):
+                ps = mir.PathSummary(b, path)
+                r = ps.ret()
+                # Ok((dir, prefix, ext))
+                while r[0] in ("call",) and r[1].callee.get("name") in ("Ok",):
+                    r = ps.origin(r[1].args[0])
+                if r[0] != "agg" or r[1].get("variant") not in ("Ok", None):
+                    continue
+                inner = r[2][0] if r[1].get("variant") == "Ok" else r
+                if inner[0] != "agg" or len(inner[2]) != 3:
+                    continue
+                d = inner[2][0]
+                checked += 1
+                rs = common.roots(d)
+                consts = [v for k, v in rs if k == "const" and isinstance(v, str)]
+                derived = [v for k, v in rs if k == "callsite"]
+                may_be_empty = any(k == "callsite" and (b.blocks[v]["term"]["callee"].get("path") in ("std::path::Path::parent",) or
+                                                        b.blocks[v]["term"]["callee"].get("path", "").endswith("String::new")) for k, v in rs)
+                if not may_be_empty:
+                    if consts and all(consts):
+                        continue
+                    continue
+                # an is_empty() test on the same value, taken on its false edge, must lie on this path
+                ok = False
+                for sbb, o, vals in ps.decisions():
+                    if o[0] == "call" and o[1].callee.get("name") == "is_empty":
+                        tested = common.roots(ps.origin(o[1].args[0], at=ps.pos[sbb]))
+                        if tested & {x for x in rs if x[0] == "callsite"} and tuple(vals) in (("0",), (0,)):
+                            ok = True
+                if not ok:
+                    return False, ("the set directory returned for a template is %s and is never tested for emptiness: "
+                                   "Path::parent() of a template without a directory component (\"app.log\") is the empty path, "
+                                   "which std::fs::read_dir and File::open reject, so the listing is never read (no retention, "
+                                   "no reuse) and the parent can never be synced" % o_str(d)), [], par[0].loc
+        if not checked:
+            raise mir.AnchorMissing("Ok((dir, prefix, ext)) in dir_prefix_ext")
+        return True, "", [par[0].loc]
+    chk.ob("C11.R6:set-directory-usable", "the directory of the set is never the empty path (Path::parent of a bare file name): it is tested and replaced before use", r6)
+
+    # ---- R7: retention is a loop bounded by the listing length --------------------------------------------------------
+    def r7():
+        b = P.body("emit_file::ActiveFileSet::<'a>::apply_retention")
+        pops = [x for x in b.calls(normal_only=True) if x.callee.get("name") in ("pop", "remove") and "Vec" in (x.callee.get("full") or "")]
+        rm = [x for x in b.calls(normal_only=True) if x.callee.get("name") == "remove_file"]
+        if len(pops) != 1 or len(rm) != 1:
+            raise mir.AnchorMissing("pop/remove_file in apply_retention")
+        if not b.in_cycle(pops[0].bb) or not b.in_cycle(rm[0].bb):
+            return False, ("retention removes at most one file per batch (the pop at %s is not in a loop): a set that is two or more "
+                           "files over the maximum - a lowered max_files, earlier delete failures - never comes back under it"
+                           % pops[0].loc), [], pops[0].loc
+        # the loop continues while len(file_set) >= max_files (param 3)
+        lens = [x for x in b.calls(normal_only=True) if x.callee.get("name") == "len" and "Vec" in (x.callee.get("full") or "")]
+        ok = False
+        for gbb, vals, n in b.guards_of(pops[0].bb):
+            so = b.switch_origin(gbb)
+            if so[0] == "binop" and so[1] in ("Ge", "Gt", "Le", "Lt"):
+                l, r = so[2], so[3]
+                names = {str(common.roots(l)), str(common.roots(r))}
+                both = common.roots(l) | common.roots(r)
+                if any(k == "callsite" and v in [x.bb for x in lens] for k, v in both) and ("param", 3) in both:
+                    op = so[1]
+                    left_is_len = any(k == "callsite" for k, v in common.roots(l))
+                    taken_true = list(vals) != ["0"]
+                    # continue-deleting condition must be len >= max (or max <= len)
+                    cond = (op, left_is_len, taken_true)
+                    if cond in (("Ge", True, True), ("Le", False, True), ("Lt", True, False), ("Gt", False, False)):
+                        ok = True
+                    else:
+                        return False, "retention continues while %s %s %s is %s: it must delete while len >= the bound" % (
+                            o_str(l), op, o_str(r), taken_true), [], pops[0].loc
+        if not ok:
+            return False, "the retention loop is not controlled by comparing the listing length with the bound", [], pops[0].loc
+        return True, "", [pops[0].loc, rm[0].loc]
+    chk.ob("C11.R7:retention-loop", "retention keeps deleting while the listing is at or over the bound", r7)
+
+    def r7b():
+        cb = c10.main_closure(P)
+        ar = [c for c in cb.calls(normal_only=True) if c.callee.get("name") == "apply_retention"]
+        if len(ar) != 1:
+            raise mir.AnchorMissing("apply_retention call in the worker")
+        o = cb.origin(ar[0].args[2])
+        # max_files - 1 (saturating): leaves room for the file about to be created
+        if not (o[0] == "call" and o[1].callee.get("name") in ("saturating_sub", "checked_sub", "wrapping_sub")
+                and mir.o_field_path(cb.origin(o[1].args[0]))[1][-1:] == ["max_files"]
+                and mir.o_const_value(cb.origin(o[1].args[1])) == 1) and not (
+                o[0] == "binop" and o[1] == "Sub"):
+            if mir.o_field_path(o)[1][-1:] == ["max_files"]:
+                return False, ("retention is bounded by max_files itself, leaving no room for the file about to be created: the set "
+                               "holds max_files + 1 files after the batch"), [], ar[0].loc
+            return False, "the retention bound is %s, not max_files - 1" % o_str(o), [], ar[0].loc
+        if o[0] == "call" and o[1].callee.get("name") != "saturating_sub":
+            return False, "max_files - 1 must saturate (max_files(1) gives a bound of 0)", [], ar[0].loc
+        return True, "", [ar[0].loc]
+    chk.ob("C11.R7:retention-bound", "retention runs with the bound max_files - 1 (saturating), leaving room for the file about to be created", r7b)
+
+    # ---- R8: the in-period counter is monotone in the clock -------------------------------------------------------------
+    def r8():
+        b = P.body("emit_file::rolling_millis")
+        r = b.origin(0)
+        inner = r[1] if r[0] == "cast" else r
+        if not (inner[0] == "call" and (inner[1].callee.get("path") or "").startswith("core::time::Duration::")):
+            return False, "the counter is %s, not a reading of the time elapsed in the period" % o_str(r), [], b.span
+        acc = inner[1].callee.get("name")
+        if acc not in ("as_millis", "as_micros", "as_nanos", "as_secs"):
+            return False, ("the counter is Duration::%s(): a sub-second part wraps every second, so within one period later files "
+                           "can get smaller counters and descending name order no longer puts the newest file first" % acc), [], inner[1].loc
+        ds = [c for c in b.calls(normal_only=True) if c.callee.get("name") == "duration_since"]
+        if len(ds) != 1 or not common.has_root(b.origin(inner[1].args[0]), "callsite", ds[0].bb):
+            return False, "the counter is not derived from duration_since", [], b.span
+        if b.origin(ds[0].args[0])[:2] != ("param", 2):
+            return False, "the elapsed time is not measured from the batch's clock reading (ts)", [], ds[0].loc
+        fp = [c for c in b.calls(normal_only=True) if c.callee.get("name") == "from_parts"]
+        if len(fp) != 3:
+            return False, "expected one period start per roll-by arm (3), found %d" % len(fp), [], b.span
+        if not all(("param", 3) in common.roots(b.origin(c.args[0])) for c in fp):
+            return False, "the period start is not built from the same reading's calendar parts", [], b.span
+        # which fields are kept per arm: day ⊂ hour ⊂ minute
+        kept = []
+        for c in fp:
+            o = b.origin(c.args[0])
+            if o[0] != "agg":
+                return False, "period start is not a Parts literal", [], c.loc
+            names = o[1].get("fields") or []
+            k = [n for n, x in zip(names, o[2]) if ("param", 3) in common.roots(x)]
+            kept.append(tuple(k))
+        want = {("years", "months", "days"), ("years", "months", "days", "hours"), ("years", "months", "days", "hours", "minutes")}
+        if set(kept) != want:
+            return False, "period starts keep the fields %s; day/hour/minute periods must keep exactly y-m-d, y-m-d-h, y-m-d-h-m" % sorted(kept), [], b.span
+        return True, "", [inner[1].loc, ds[0].loc]
+    chk.ob("C11.R8:counter-monotone", "the name's counter is the whole time elapsed since the start of the current period, so it grows with the clock inside a period", r8)
+
+    def r8b():
+        cb = c10.main_closure(P)
+        rm = cb.calls_to(path="emit_file::rolling_millis")
+        fts = cb.calls_to(path="emit_file::file_ts")
+        tp = [c for c in cb.calls(normal_only=True) if c.callee.get("name") == "to_parts"]
+        now = [c for c in cb.calls(normal_only=True) if c.callee.get("name") == "now"]
+        if len(rm) != 1 or len(fts) != 1 or len(tp) != 1 or len(now) != 1:
+            raise mir.AnchorMissing("rolling_millis/file_ts/to_parts/now in the worker")
+        if not common.has_root(cb.origin(rm[0].args[1]), "callsite", now[0].bb):
+            return False, "the counter is not computed from this batch's clock reading", [], rm[0].loc
+        for c in (rm[0], fts[0]):
+            a = c.args[2] if c is rm[0] else c.args[1]
+            if not common.has_root(cb.origin(a), "callsite", tp[0].bb):
+                return False, "%s is not given the calendar parts of this batch's clock reading" % c.callee.get("name"), [], c.loc
+        if not common.has_root(cb.origin(tp[0].args[0]), "callsite", now[0].bb):
+            return False, "the calendar parts are not those of this batch's clock reading", [], tp[0].loc
+        if mir.o_field_path(cb.origin(rm[0].args[0]))[1][-1:] != ["roll_by"] or mir.o_field_path(cb.origin(fts[0].args[0]))[1][-1:] != ["roll_by"]:
+            return False, "period and counter are not computed with the configured roll_by", [], rm[0].loc
+        return True, "", [rm[0].loc, fts[0].loc]
+    chk.ob("C11.R8:one-reading", "period, counter and calendar parts of a new name all come from the one clock reading taken for the batch", r8b)
+
+    # ---- R9: a file's period is read from its own name --------------------------------------------------------------------
+    def r9():
+        sites = []
+        for fn, opener in (("try_open_reuse", "open_existing"), ("try_open_create", "open_new")):
+            b = P.body("emit_file::ActiveFile::%s" % fn)
+            rd = b.calls_to(path="emit_file::read_file_path_ts")
+            op = [c for c in b.calls(normal_only=True) if c.callee.get("name") == opener]
+            if len(rd) != 1 or len(op) != 1:
+                return False, "%s: expected one read_file_path_ts and one %s" % (fn, opener), [], b.span
+            aggs = [(bb, st) for bb, j, st in b.statements(normal_only=True) if st["k"] == "assign" and st["rv"]["k"] == "agg"
+                    and (st["rv"].get("adt") or "").endswith("ActiveFile")]
+            if len(aggs) != 1:
+                return False, "%s: expected one ActiveFile literal" % fn, [], b.span
+            st = aggs[0][1]
+            names = st["rv"].get("fields") or []
+            ops = dict(zip(names, st["rv"]["ops"]))
+            if not common.has_root(b.origin(ops["file_ts"]), "callsite", rd[0].bb):
+                return False, ("%s takes the file's period from %s, not from the file's own name: a file of an earlier period that is "
+                               "re-opened would pass the same-period test and be appended to" % (fn, o_str(b.origin(ops["file_ts"])))), [], rd[0].loc if rd else b.span
+            pr = common.roots(b.origin(rd[0].args[0]))
+            po = common.roots(b.origin(op[0].args[1]))
+            if not (("param", 2) in pr and ("param", 2) in po):
+                return False, "%s reads the period of one path and opens another" % fn, [], rd[0].loc
+            if not common.has_root(b.origin(ops["file_path"]), "param", 2):
+                return False, "%s records a different path than the one it opened" % fn, [], b.span
+            sites += [rd[0].loc, op[0].loc]
+        return True, "", sites
+    chk.ob("C11.R9:period-from-own-name", "an opened file's period is parsed from the name of the very path that was opened", r9)
+
     common.arg_agreement_rule(chk, P, "C11", [("emit_file", None)], 5)
     return chk
